@@ -460,7 +460,9 @@ func runConc(f *vevid.Flags, rep *vevid.Report, r replay) {
 			cdiscard(a)
 			b := vsched.Run(nil, 200000, cbody(sc))
 			cdiscard(b)
-			if len(a.Points) != len(b.Points) || a.Steps != b.Steps {
+			// (with statement-level points a first execution may take a few more single-thread steps than a later one:
+			// lazily built process-wide state; the choice points and the observation log have to agree)
+			if len(a.Points) != len(b.Points) || (a.Steps != b.Steps && !vsched.Dense) || strings.Join(a.Log, "|") != strings.Join(b.Log, "|") {
 				vevid.Fatal("nondeterministic replay: %d/%d points, %d/%d steps", len(a.Points), len(b.Points), a.Steps, b.Steps)
 			}
 			rep.Extra["determinism_replay"] = "ok"
